@@ -163,3 +163,59 @@ Section Cert.
     unfold sym_chk. rewrite forallb_forall. intros H u v Huv. apply has_edge_In. apply (H (u, v)). exact Huv.
   Qed.
 End Cert.
+
+(* ---------------- termination of the alternating loop ---------------- *)
+Definition count_ltL (l : list Z) (b : Z) : nat := length (filter (fun d => d <? b) l).
+
+Lemma count_ltL_mono l b b' : b' <= b -> (count_ltL l b' <= count_ltL l b)%nat.
+Proof.
+  intros H. unfold count_ltL. induction l as [|y l IH]; cbn [filter]; [lia|].
+  destruct (Z.ltb_spec y b'); destruct (Z.ltb_spec y b); cbn [length]; lia.
+Qed.
+
+Lemma count_ltL_drop : forall l b b', In b' l -> b' < b -> (count_ltL l b' < count_ltL l b)%nat.
+Proof.
+  induction l as [|x l IH]; intros b b' Hin Hlt; [destruct Hin|].
+  unfold count_ltL in *. cbn [filter]. destruct Hin as [->|Hin].
+  - assert (E1 : (b' <? b') = false) by (apply Z.ltb_ge; lia). assert (E2 : (b' <? b) = true) by (apply Z.ltb_lt; lia).
+    rewrite E1, E2. cbn [length]. pose proof (count_ltL_mono l b b' ltac:(lia)) as M. unfold count_ltL in M. lia.
+  - specialize (IH b b' Hin Hlt). destruct (Z.ltb_spec x b'); destruct (Z.ltb_spec x b); cbn [length]; lia.
+Qed.
+
+Lemma fold_min_le : forall ds b, fold_left Z.min ds b <= b.
+Proof.
+  induction ds as [|d ds IH]; intros b; cbn [fold_left]; [lia|]. specialize (IH (Z.min b d)). lia.
+Qed.
+
+Lemma fold_min_in : forall ds b, fold_left Z.min ds b < b -> In (fold_left Z.min ds b) ds.
+Proof.
+  induction ds as [|d ds IH]; intros b H; cbn [fold_left] in *; [lia|].
+  destruct (Z.lt_ge_cases (fold_left Z.min ds (Z.min b d)) (Z.min b d)) as [Hlt|Hge].
+  - right. apply IH. exact Hlt.
+  - pose proof (fold_min_le ds (Z.min b d)) as Hle.
+    assert (E : fold_left Z.min ds (Z.min b d) = Z.min b d) by lia.
+    rewrite E in *. left. lia.
+Qed.
+
+Section AltLoop.
+  Variable S : list Z.                          (* the finitely many distances between the two components *)
+  Variable oracle : nat -> list Z * bool.
+  Hypothesis oracle_in_S : forall i d, In d (fst (oracle i)) -> In d S.
+
+  (* the loop ends within 2 * (number of candidate distances below the start) + 3 searches,
+     whatever the searches return and however the candidate sets keep changing *)
+  Theorem alt_loop_terminates : forall fuel i best stalled changed,
+    (stalled <= 2)%nat -> (2 * count_ltL S best + (2 - stalled) < fuel)%nat ->
+    alt_loop oracle fuel i best stalled changed <> None.
+  Proof.
+    induction fuel as [|f IH]; intros i best stalled changed Hs Hf; [lia|].
+    cbn [alt_loop]. destruct (negb changed || Nat.leb 2 stalled) eqn:Ec; [discriminate|].
+    apply orb_false_iff in Ec. destruct Ec as [_ Hst]. apply Nat.leb_gt in Hst.
+    pose proof (oracle_in_S i) as HinS. destruct (oracle i) as [ds ch']. cbn [fst] in HinS.
+    pose proof (fold_min_le ds best) as Hle.
+    destruct (Z.ltb_spec (fold_left Z.min ds best) best) as [Hlt|Hge].
+    - apply IH; [lia|].
+      pose proof (count_ltL_drop S best (fold_left Z.min ds best) (HinS _ (fold_min_in ds best Hlt)) Hlt). lia.
+    - assert (E : fold_left Z.min ds best = best) by lia. rewrite E. apply IH; lia.
+  Qed.
+End AltLoop.
